@@ -36,6 +36,7 @@ KINDS = [
     ("atom-new-residue", lambda i: [_atom("ATOM", 100 + i, "CA", "ALA", "A", 10 + i, _x(i, 0))]),
     ("atom-same-residue", lambda i: [_atom("ATOM", 100 + i, ["N", "CA", "C", "O", "CB", "CG"][i], "LEU", "A", 5, _x(i, 1))]),
     ("atom-insertion-code", lambda i: [_atom("ATOM", 100 + i, ["N", "CA", "C", "O", "CB", "CG"][i], "LEU", "A", 5, _x(i, 2), icode="A")]),
+    ("atom-insertion-code-cut-after-z", lambda i: [_atom("ATOM", 100 + i, ["N", "CA", "C", "O", "CB", "CG"][i], "LEU", "A", 5, _x(i, 22), icode="B", cut=54)]),
     ("atom-negative-number", lambda i: [_atom("ATOM", 100 + i, "CA", "GLY", "A", -3 - i, _x(i, 3))]),
     ("atom-blank-chain", lambda i: [_atom("ATOM", 100 + i, "CA", "GLY", " ", 20 + i, _x(i, 4))]),
     ("atom-other-chain-same-number", lambda i: [_atom("ATOM", 100 + i, ["N", "CA", "C", "O", "CB", "CG"][i], "LEU", "B", 5, _x(i, 5))]),
@@ -128,11 +129,12 @@ def h_records(eng, nlines, kinds, models, drop, first=None):
         return
     got = []
     grouping_ok = True
+    by_x = {x: ident[:3] for ident, x in _oracle(lines, False)}  # x identifies the record: (chain, number, insertion code) as written
     for res in bm.residues:
         idents = set()
         for a in res.atoms:
             got.append(((a.res_seq, a.ins_code or " "), a.x))
-            idents.add((a.res_seq, a.ins_code))
+            idents.add(by_x.get(a.x, (a.chain_id, a.res_seq, a.ins_code)))
         if len(idents) > 1:
             grouping_ok = False
     # atoms are identified by residue number, insertion code and their (unique) x coordinate: names may be canonicalised
@@ -142,7 +144,7 @@ def h_records(eng, nlines, kinds, models, drop, first=None):
     extra = [g for g in got_cmp if g not in want_cmp]
     eng.check(not missing, "every-record-ingested", note=f"sequence [{' | '.join(chosen)}] models={models} drop_water={drop}: records not in the structure: {missing[:4]}")
     eng.check(not extra, "nothing-extra", note=f"sequence [{' | '.join(chosen)}] models={models} drop_water={drop}: atoms that should not be in the structure (later model, later alternate location, or water with --drop-water): {extra[:4]}")
-    eng.check(grouping_ok, "residue-grouping", note=f"sequence [{' | '.join(chosen)}]: atoms with different residue number/insertion code share a residue object")
+    eng.check(grouping_ok, "residue-grouping", note=f"sequence [{' | '.join(chosen)}]: records with different chain / residue number / insertion code share a residue object")
     eng.check(len(got_cmp) == len(set(got_cmp)), "no-duplicates")
     if drop:
         # C09: --drop-water equals running on the input with its water records deleted
